@@ -172,7 +172,8 @@ def _work(st, batch):
     return res
 
 
-DIRECTED = ["() = x\n", "(1, 2) = x\n", "del ()\n", "for () in x: pass\n", "x = ()\n", "x = (1, 2, (3, 'a', (None, ...)))\n", "x = (1, y)\n", "x = ((1, 2), [3, (4, 5)])\n", "f((1, 2), k=(3,))\n",
+DIRECTED = ["async def f[T: int, *Ts, **P](x: T) -> T: pass\n", "def f[T: (int, str), U: list[int]](): pass\n", "class C[T: int, *Ts](B[T], k=T): pass\n", "type X[T: int, **P] = list[T]\n",
+            "async def g[T: Bound](a: T = d, *b: T, c: T = e, **k: T) -> T:\n    async for x in y: await z\n", "() = x\n", "(1, 2) = x\n", "del ()\n", "for () in x: pass\n", "x = ()\n", "x = (1, 2, (3, 'a', (None, ...)))\n", "x = (1, y)\n", "x = ((1, 2), [3, (4, 5)])\n", "f((1, 2), k=(3,))\n",
             "def f(a=(1, 2), *, b=((),)): return (1, 2)\n", "x[(1, 2)] = (3, 4)\n", "x[1, 2] = 3\n", "with a as (b, c): pass\n", "[(1, 2) for x in (3, 4) if (5,)]\n", "match x:\n case (1, 2): pass\n",
             "(1, 2)[0]\n", "x: (1, 2) = (3, 4)\n", "lambda a=(1, 2): (a, 1)\n", "f'{(1, 2)}'\n", "x = 1,\n", "x = 1, 2.5, 'a', b'b', True, None, ...\n", "(a, b), (1, 2) = y\n"]
 
